@@ -281,10 +281,10 @@ func (p *Program) lockDiscipline(pkgShort, typeName string, fields []string, loc
 		lock, unlock := false, false
 		if len(fn.Blocks) > 0 {
 			for _, in := range fn.Blocks[0].Instrs {
-				if c, ok := in.(*ssa.Call); ok && calleeName(&c.Call) == lockCallee {
+				if c, ok := in.(*ssa.Call); ok && nameIn(calleeName(&c.Call), lockCallee) {
 					lock = true
 				}
-				if d, ok := in.(*ssa.Defer); ok && calleeName(&d.Call) == unlockCallee {
+				if d, ok := in.(*ssa.Defer); ok && nameIn(calleeName(&d.Call), unlockCallee) {
 					unlock = true
 				}
 			}
@@ -297,7 +297,7 @@ func (p *Program) lockDiscipline(pkgShort, typeName string, fields []string, loc
 		why := "takes the mutex in its entry block with a deferred unlock"
 		if !ok {
 			// all callers hold it (closures: their parent)
-			callers := p.Callers(fn)
+			callers := p.RealCallers(fn)
 			all := len(callers) > 0
 			var names []string
 			for _, c := range callers {
@@ -554,4 +554,14 @@ func (p *Program) sendCapacity(fn *ssa.Function) []pairResult {
 		}
 	}
 	return out
+}
+
+// nameIn: name is one of the "|"-separated alternatives.
+func nameIn(name, alts string) bool {
+	for _, a := range strings.Split(alts, "|") {
+		if a == name {
+			return true
+		}
+	}
+	return false
 }
